@@ -103,23 +103,22 @@ def Atmo.temperatureAt (a : Atmo α) (altFt : α) : α :=
   let t := (altFt - a.a0) * cLapseRateKperFoot + a.t0
   if t < lowestTempC then lowestTempC else t
 
-/-- base of the barometric power law at an altitude -/
+/-- base of the barometric power law at an altitude, clamped at zero (`max(…, 0.0)`) -/
 def Atmo.pressureBase (a : Atmo α) (altFt : α) : α :=
-  1.0 + cLapseRateKperFoot * (altFt - a.a0) / (a.t0 + cDegreesCtoK)
+  let b := 1.0 + cLapseRateKperFoot * (altFt - a.a0) / (a.t0 + cDegreesCtoK)
+  if b < 0.0 then 0.0 else b
 
 /-- `pressure_at_altitude` (hPa) -/
 def Atmo.pressureAt (a : Atmo α) (altFt : α) : α :=
   a.p0 * Fn.pow (a.pressureBase altFt) cPressureExponent
 
-/-- `get_density_factor_and_mach_for_altitude(altitude ft)` → (density ratio, Mach 1 in fps);
-    `none` = `ValueError: math domain error` (`math.pow` of a negative base, i.e. an altitude so far above
-    the station that the lapse-rate pressure law has passed zero). -/
+/-- `get_density_factor_and_mach_for_altitude(altitude ft)` → (density ratio, Mach 1 in fps).
+    (The `Option` is kept for the generic environment interface; this atmosphere always answers.) -/
 def Atmo.densityMachAt (a : Atmo α) (altFt : α) : Option (α × α) :=
   if Fn.abs (a.a0 - altFt) < 30.0 then some (a.densityRatio, a.mach)
   else
     let t := a.temperatureAt altFt + cDegreesCtoK
     let mach := fpsOf (machK t)
-    if a.pressureBase altFt < 0.0 then none else
     let p := a.pressureAt altFt
     let densityDelta := ((a.t0 + cDegreesCtoK) * p) / (a.p0 * t)
     some (a.densityRatio * densityDelta, mach)
